@@ -19,5 +19,6 @@ import SquidModel.Properties.C59
 #print axioms SquidModel.C59.cancel_preserves_others
 #print axioms SquidModel.C59.cancel_removes_exactly
 #print axioms SquidModel.C59.due_events_fire
+#print axioms SquidModel.C59.fires_at_most_once
 #print axioms SquidModel.C59.runOnce_settles
 #print axioms SquidModel.C59.find_spec
